@@ -13,6 +13,8 @@
 //	    nm locals <s>              localVars of scope s                 -> comma list of hex
 //	    nm kw                      reservedKeywords, sorted             -> comma list
 //	    nm enc <hex>               encodeIdent                          -> <hex>
+//	gvh_c16 incjs   JSON jobs {id, files}; per .inc.js file of every compiled package the three segments the REAL
+//	                compiler.WritePkgCode writes (wrapper head, JS, wrapper tail), plain and minified
 //	gvh_c16 decls   JSON jobs {id, files} on stdin; compiles each program WITHOUT minification and
 //	                prints one JSON line {id, err, codes:[hex of every distinct non-empty Decl code field]}
 package main
@@ -29,6 +31,7 @@ import (
 	"strings"
 
 	"github.com/gopherjs/gopherjs/compiler"
+	"github.com/gopherjs/gopherjs/compiler/linkname"
 
 	"gvh/internal/gojs"
 )
@@ -162,6 +165,50 @@ func answer(w []string) string {
 	return "bad-op"
 }
 
+// recorder keeps every Write call as one segment.
+type recorder struct{ segs [][]byte }
+
+func (r *recorder) Write(p []byte) (int, error) {
+	r.segs = append(r.segs, append([]byte(nil), p...))
+	return len(p), nil
+}
+
+// pkgSegments runs the REAL compiler.WritePkgCode on the archive and returns the segments it writes for the
+// .inc.js files (wrapper head, JS code, wrapper tail per file), in write order.
+func pkgSegments(a *compiler.Archive, minify bool) (segs [][]byte, err error) {
+	defer func() {
+		if r := recover(); r != nil {
+			err = fmt.Errorf("panic: %v", r)
+		}
+	}()
+	sel := map[*compiler.Decl]struct{}{}
+	for _, d := range a.Declarations {
+		sel[d] = struct{}{}
+	}
+	rec := &recorder{}
+	if err := compiler.WritePkgCode(a, sel, linkname.GoLinknameSet{}, minify, compiler.DefaultFilter(rec)); err != nil {
+		return nil, err
+	}
+	n := 3 * len(a.IncJSCode)
+	if len(rec.segs) < n {
+		return nil, fmt.Errorf("WritePkgCode wrote %d segments for %d .inc.js files", len(rec.segs), len(a.IncJSCode))
+	}
+	return rec.segs[:n], nil
+}
+
+type incSeg struct {
+	Pkg   string   `json:"pkg"`
+	File  string   `json:"file"`
+	Plain []string `json:"plain"` // head, js, tail as written without minification (hex)
+	Min   []string `json:"min"`   // the same three segments with minification
+}
+
+type incOut struct {
+	ID   string   `json:"id"`
+	Err  string   `json:"err,omitempty"`
+	Segs []incSeg `json:"segs"`
+}
+
 type job struct {
 	ID    string            `json:"id"`
 	Files map[string]string `json:"files"`
@@ -236,6 +283,59 @@ func main() {
 						seen[h] = true
 						res.Codes = append(res.Codes, hex.EncodeToString(code))
 					}
+				}
+			}
+			os.RemoveAll(dir)
+			enc.Encode(res)
+		}
+	case "incjs":
+		// JSON jobs {id, files}: compile, then the segments the real WritePkgCode writes around every .inc.js file
+		scratch, err := os.MkdirTemp(os.Getenv("VERIF_SCRATCH"), "gvc16i-")
+		if err != nil {
+			fmt.Fprintln(os.Stderr, err)
+			os.Exit(2)
+		}
+		defer os.RemoveAll(scratch)
+		dec := json.NewDecoder(os.Stdin)
+		enc := json.NewEncoder(out)
+		n := 0
+		for dec.More() {
+			var j job
+			if err := dec.Decode(&j); err != nil {
+				fmt.Fprintln(os.Stderr, "bad job:", err)
+				os.Exit(2)
+			}
+			n++
+			dir := filepath.Join(scratch, fmt.Sprintf("p%d", n))
+			res := incOut{ID: j.ID, Segs: []incSeg{}}
+			if err := gojs.WriteModule(dir, "gvprog", j.Files); err != nil {
+				res.Err = err.Error()
+				enc.Encode(res)
+				continue
+			}
+			c := gojs.Compile(dir, gojs.Options{})
+			if c.Err != nil {
+				res.Err = c.Err.Error()
+				enc.Encode(res)
+				continue
+			}
+			for _, a := range c.Archives {
+				if len(a.IncJSCode) == 0 {
+					continue
+				}
+				pl, err1 := pkgSegments(a, false)
+				mi, err2 := pkgSegments(a, true)
+				if err1 != nil || err2 != nil {
+					res.Err = fmt.Sprint(err1, err2)
+					break
+				}
+				for i, f := range a.IncJSCode {
+					sg := incSeg{Pkg: a.ImportPath, File: filepath.Base(f.Path)}
+					for k := 0; k < 3; k++ {
+						sg.Plain = append(sg.Plain, hexs(pl[3*i+k]))
+						sg.Min = append(sg.Min, hexs(mi[3*i+k]))
+					}
+					res.Segs = append(res.Segs, sg)
 				}
 			}
 			os.RemoveAll(dir)
